@@ -123,6 +123,20 @@ func runWorker(r *evid.Run, job string) {
 	if len(f) > 4 && f[4] == "dirty-cache" {
 		e.init = dirty
 	}
+	if len(f) > 4 && f[4] == "populated-cursor" {
+		// cursor family on durable data: only cursor operations inside the transaction (one Seek
+		// key), every walk that deleted through the cursor is committed and compared afterwards
+		e.init = populated
+		e.cursorCommits = true
+		e.opFilter = func(op string) bool {
+			return op[0] == 'c' && op != "cS:0" && op != "cS:2"
+		}
+	}
+	if d := os.Getenv("VERIF_C16_DEADLINE"); d != "" {
+		if t, err := strconv.ParseInt(d, 10, 64); err == nil {
+			e.stop = func() bool { return r.Expired() || time.Now().Unix() > t }
+		}
+	}
 	in := e.fresh(nil)
 	var cur *inst // instance executing an operation (for the history of a panic)
 	e.onExec = func(x *inst) { cur = x }
@@ -204,11 +218,17 @@ func main() {
 		depth   int
 		nshards int
 	}
-	starts := []start{{"empty", depth, 16}, {"populated", depthPop, 16}, {"dirty-cache", depthPop, 16}}
+	starts := []start{{"empty", depth, 16}, {"populated", depthPop, 16}, {"dirty-cache", depthPop, 16}, {"populated-cursor", r.Pick(6, 8), 8}}
 	if depthPop <= 3 {
 		starts[1].nshards, starts[2].nshards = 4, 4
 	}
+	// thorough: global time cap (the full depth-8 space needs ~45 min); workers that start after
+	// the deadline return at once, the run ends with exit 0 and exhaustive=false
+	if r.Thorough() && os.Getenv("VERIF_C16_DEADLINE") == "" {
+		os.Setenv("VERIF_C16_DEADLINE", strconv.FormatInt(time.Now().Add(22*time.Minute).Unix(), 10))
+	}
 	var jobs []string
+	starts[0], starts[3] = starts[3], starts[0] // few long shards first
 	for _, st := range starts {
 		for _, c := range cacheCfgs {
 			for s := 0; s < st.nshards; s++ {
@@ -313,7 +333,7 @@ func main() {
 		"cache_configurations":                           cn,
 		"exhaustive":                                     !capped,
 		"samples":                                        samples,
-		"rule": "operations {begin(rw|ro), put/delete on 3 buckets (root, x, x/y) x 3 keys x 2 values, createBucket/deleteBucket x,y, storeBlock (max 2), cursor(bucket), cursor First/Last/Next/Prev/Seek(k)/Delete, commit, rollback, update-returning-error, close+reopen}; all histories up to the depth bound (number of operations), explored per cache configuration from the empty database and (two operations less) from a populated durable one (all three buckets with keys, committed, closed and reopened) and from a dirty-cache one (the populated database plus one more commit that deletes a durable key, overwrites one and re-creates a nested bucket, not followed by a reopen); " +
+		"rule": "operations {begin(rw|ro), put/delete on 3 buckets (root, x, x/y) x 3 keys x 2 values, createBucket/deleteBucket x,y, storeBlock (max 2), cursor(bucket), cursor First/Last/Next/Prev/Seek(k)/Delete, commit, rollback, update-returning-error, close+reopen}; all histories up to the depth bound (number of operations), explored per cache configuration from the empty database and (two operations less) from a populated durable one (all three buckets with keys, committed, closed and reopened) and from a dirty-cache one (the populated database plus one more commit that deletes a durable key, overwrites one and re-creates a nested bucket, not followed by a reopen); plus a cursor family on the populated durable database (only cursor operations inside the transaction, depth 6 quick / 8 thorough, every walk that deleted through the cursor committed and compared); " +
 			"transaction states merged on (visible content, pending status of every key and bucket, stored blocks, cursor bucket/position/validity and the cursor's operation history since its last First/Last/Seek); committed states merged on (content, blocks, bucket id counter, cached entries, just-reopened); every merged state is reached by replaying its shortest history on the real database; " +
 			"oracle after every operation: existence of every bucket, Get of every key, ForEach, ForEachBucket, full cursor forward = ForEach + ForEachBucket and backward = mirror image, Writable, blocks, documented error codes of non-mutating bad calls; after commit/rollback/failed Update/reopen the same in a fresh read-only transaction plus ErrTxClosed on every stale handle",
 	}
